@@ -119,11 +119,15 @@ def itemsData : List Item → Bytes
   | [] => []
   | .endRetx :: t => itemsData t
   | .write b _ :: t => b ++ itemsData t
+  | .feed rem _ :: t => rem ++ itemsData t
 
+/-- the pending calls are `write` calls with the 7-byte pieces of the rest of the payload (the
+    caller item `feed` does not occur: the caller has been unfolded into these pieces) -/
 def TodoOK : List Item → Prop
   | [] => True
   | .endRetx :: t => TodoOK t
   | .write b _ :: t => 1 ≤ b.length ∧ b.length ≤ 7 ∧ (itemsData t ≠ [] → b.length = 7) ∧ TodoOK t
+  | .feed _ _ :: _ => False
 
 theorem itemsData_append (a b : List Item) : itemsData (a ++ b) = itemsData a ++ itemsData b := by
   induction a with
@@ -158,19 +162,21 @@ structure Inv (payload : Bytes) (s : Sys) (todo : List Item) : Prop where
   data : s.srv.buf ++ (s.cl.currentBlock.drop s.srv.sseq).flatten ++ itemsData todo = payload
   pos : s.cl.pos + (itemsData todo).length = payload.length
   size : s.cl.size = some payload.length
-  srvSize : s.srv.size = some payload.length
+  srvSize : s.srv.size = some payload.length ∨ s.srv.size = none
   cb7 : ∀ b ∈ s.cl.currentBlock, b.length = 7
   todoOK : TodoOK todo
   queue : s.queue = []
   nonempty : itemsData todo ≠ []
+  pend : s.cl.pend = []
 
 /-- after the last segment has been sent and acknowledged -/
 structure DoneInv (payload : Bytes) (s : Sys) : Prop where
   phase : s.srv.phase = .fin
   buf : s.srv.buf = payload ++ List.replicate (7 - s.cl.lastBytesSent) 0
   last : 1 ≤ s.cl.lastBytesSent ∧ s.cl.lastBytesSent ≤ 7
-  srvSize : s.srv.size = some payload.length
+  srvSize : s.srv.size = some payload.length ∨ s.srv.size = none
   queue : s.queue = []
+  done : s.cl.done = true
 
 /-- the last segment went out but was not acknowledged in full: `_retransmit` will call `write`
     on a stream that is already `_done` -/
@@ -202,7 +208,8 @@ theorem inv_retx {payload : Bytes} {s s' : Sys} {b : Bytes} {r : Bool} {t : List
     (e1 : s'.srv.phase = .recv) (e2 : s'.cl.done = false) (e3 : s'.cl.blksize = nb) (e4 : s'.srv.blk = nb)
     (e5 : s'.cl.seqno = 0) (e6 : s'.cl.currentBlock = []) (e7 : s'.srv.sseq = 0) (e8 : s'.srv.buf = s.srv.buf)
     (e9 : s'.cl.pos = s.cl.pos + 7 - ((s.cl.currentBlock ++ [b]).drop s.srv.sseq).length * 7)
-    (e10 : s'.cl.size = s.cl.size) (e11 : s'.srv.size = s.srv.size) (e12 : s'.queue = []) :
+    (e10 : s'.cl.size = s.cl.size) (e11 : s'.srv.size = s.srv.size) (e12 : s'.queue = [])
+    (e13 : s'.cl.pend = s.cl.pend := by rfl) :
     Inv payload s' ((((s.cl.currentBlock ++ [b]).drop s.srv.sseq).map fun b => Item.write b true)
       ++ [Item.endRetx] ++ t) := by
   have hlen := inv_lengths h
@@ -219,7 +226,7 @@ theorem inv_retx {payload : Bytes} {s s' : Sys} {b : Bytes} {r : Bool} {t : List
   simp only [itemsData, List.length_append] at hdata hpos
   refine ⟨e1, e2, by rw [e3, e4], by rw [e5, e6]; rfl, by rw [e5, e3]; omega, by rw [e3]; omega,
     by rw [e7]; omega, ?_, ?_, by rw [e10]; exact h.size, by rw [e11]; exact h.srvSize,
-    by rw [e6]; intro x hx; simp at hx, ?_, e12, ?_⟩
+    by rw [e6]; intro x hx; simp at hx, ?_, e12, ?_, by rw [e13]; exact h.pend⟩
   · rw [e8, e6, e7, itemsData_append, itemsData_retx, hdrop]
     simp only [List.drop_nil, List.flatten_nil, List.append_nil, List.flatten_append, List.flatten_cons]
     rw [← hdata]; simp
@@ -239,7 +246,7 @@ theorem inv_advance {payload : Bytes} {s s' : Sys} {b : Bytes} {r : Bool} {t : L
     (e7 : s'.srv.sseq = if acc then s.srv.sseq + 1 else s.srv.sseq)
     (e8 : s'.srv.buf = if acc then s.srv.buf ++ b else s.srv.buf)
     (e9 : s'.cl.pos = s.cl.pos + 7) (e10 : s'.cl.size = s.cl.size) (e11 : s'.srv.size = s.srv.size)
-    (e12 : s'.queue = []) : Inv payload s' t := by
+    (e12 : s'.queue = []) (e13 : s'.cl.pend = s.cl.pend := by rfl) : Inv payload s' t := by
   have hdata := h.data
   have hpos := h.pos
   have hsl := h.seqLen
@@ -247,7 +254,7 @@ theorem inv_advance {payload : Bytes} {s s' : Sys} {b : Bytes} {r : Bool} {t : L
   simp only [itemsData, List.length_append] at hdata hpos
   refine ⟨e1, e2, by rw [e3, e4]; exact h.blk, by rw [e5, e6, hsl]; simp, by rw [e5, e3]; exact hlt,
     by rw [e3]; exact h.blkLe, ?_, ?_, by rw [e9]; omega, by rw [e10]; exact h.size,
-    by rw [e11]; exact h.srvSize, ?_, h.todoOK.2.2.2, e12, ht⟩
+    by rw [e11]; exact h.srvSize, ?_, h.todoOK.2.2.2, e12, ht, by rw [e13]; exact h.pend⟩
   · rw [e7, e5]; split <;> omega
   · rw [e7, e8, e6]
     cases acc
@@ -276,7 +283,7 @@ theorem inv_acked {payload : Bytes} {s s' : Sys} {b : Bytes} {r : Bool} {t : Lis
     (e5 : s'.cl.seqno = 0) (e6 : s'.cl.currentBlock = []) (e7 : s'.srv.sseq = 0)
     (e8 : s'.srv.buf = s.srv.buf ++ b)
     (e9 : s'.cl.pos = s.cl.pos + b.length) (e10 : s'.cl.size = s.cl.size) (e11 : s'.srv.size = s.srv.size)
-    (e12 : s'.queue = []) : Inv payload s' t := by
+    (e12 : s'.queue = []) (e13 : s'.cl.pend = s.cl.pend := by rfl) : Inv payload s' t := by
   have hdata := h.data
   have hpos := h.pos
   have hsl := h.seqLen
@@ -284,7 +291,7 @@ theorem inv_acked {payload : Bytes} {s s' : Sys} {b : Bytes} {r : Bool} {t : Lis
   simp only [itemsData, List.length_append, h0, List.flatten_nil, List.append_nil] at hdata hpos
   refine ⟨e1, e2, by rw [e3, e4], by rw [e5, e6]; rfl, by rw [e5, e3]; omega, by rw [e3]; omega,
     by rw [e7]; omega, ?_, by rw [e9]; omega, by rw [e10]; exact h.size, by rw [e11]; exact h.srvSize,
-    by rw [e6]; intro x hx; simp at hx, h.todoOK.2.2.2, e12, ht⟩
+    by rw [e6]; intro x hx; simp at hx, h.todoOK.2.2.2, e12, ht, by rw [e13]; exact h.pend⟩
   rw [e8, e6, e7]; simp only [List.drop_nil, List.flatten_nil, List.append_nil]
   rw [← hdata]; simp
 
@@ -419,7 +426,7 @@ theorem send_last (E : Env) (hE : Plain E) (payload : Bytes) (s : Sys)
       rw [if_pos (by simp), blockAck_queued _ _ (s.srv.sseq + 1) (E.blkOf s.srv.k) (by rfl), ackResponse_ack]
       have he : s.srv.sseq + 1 = s.cl.seqno + 1 := by omega
       simp only [ne_eq, he, not_true_eq_false, if_false]
-      refine Or.inl ⟨⟨rfl, ?_, ⟨tk1, tk2⟩, h.srvSize, rfl⟩, rfl, ht⟩
+      refine Or.inl ⟨⟨rfl, ?_, ⟨tk1, tk2⟩, h.srvSize, rfl, by simp⟩, rfl, ht⟩
       have hdata := h.data
       have h0 : List.drop s.srv.sseq s.cl.currentBlock = [] := List.drop_eq_nil_of_le (by omega)
       simp only [itemsData, ht, h0, List.flatten_nil, List.append_nil] at hdata
@@ -435,6 +442,23 @@ theorem send_last (E : Env) (hE : Plain E) (payload : Bytes) (s : Sys)
       simp only [hdrop]
       exact doomed_retx _ t (by simp)
 
+theorem clearPend_eq (s : Sys) (hp : s.cl.pend = []) :
+    ({ s with cl := { s.cl with pend := [] } } : Sys) = s := by
+  cases s with
+  | mk cl _ _ _ _ _ _ _ => cases cl; simp_all
+
+/-- `write` when nothing is kept back from earlier calls: the first seven bytes offered go out, or
+    are kept if they are fewer and the declared size is not reached -/
+theorem writeStep_nopend (E : Env) (s : Sys) (b : Bytes) (r : Bool) (hp : s.cl.pend = []) :
+    writeStep E s b r =
+      if s.cl.done then (fail s .runtime, .err)
+      else if s.cl.size.isSome ∧ s.cl.pos + (b.take 7).length ≥ s.cl.size.getD 0 then send E s (b.take 7) true
+      else if (b.take 7).length < 7 then ({ s with cl := { s.cl with pend := b.take 7 } }, .cont [])
+      else send E s (b.take 7) false := by
+  unfold writeStep
+  simp only [hp, List.length_nil, Nat.sub_zero, List.nil_append]
+  rw [clearPend_eq s hp]
+
 theorem writeStep_post (E : Env) (hE : Plain E) (payload : Bytes) (s : Sys)
     (b : Bytes) (r : Bool) (t : List Item) (h : Inv payload s (.write b r :: t)) :
     Post payload t (writeStep E s b r) := by
@@ -442,7 +466,7 @@ theorem writeStep_post (E : Env) (hE : Plain E) (payload : Bytes) (s : Sys)
   have hpos := h.pos
   have htake : b.take 7 = b := List.take_of_length_le tk2
   simp only [itemsData, List.length_append] at hpos
-  unfold writeStep
+  rw [writeStep_nopend E s b r h.pend]
   simp only [h.notDone, Bool.false_eq_true, if_false, htake, h.size, Option.isSome_some, Option.getD_some, true_and]
   by_cases ht : itemsData t = []
   · rw [if_pos (by simp [ht] at hpos; omega)]
@@ -473,17 +497,18 @@ theorem run_done (E : Env) (payload : Bytes) : ∀ (fuel : Nat) (s : Sys) (t : L
       cases x with
       | endRetx =>
         simp only [run] at h ⊢
-        exact ih _ t ⟨hd.phase, hd.buf, hd.last, hd.srvSize, hd.queue⟩ ht hok h
+        exact ih _ t ⟨hd.phase, hd.buf, hd.last, hd.srvSize, hd.queue, hd.done⟩ ht hok h
       | write b r =>
         exfalso
         obtain ⟨h1, -⟩ := hok
         simp only [itemsData, List.append_eq_nil_iff] at ht
         rw [ht.1] at h1; simp at h1
+      | feed rem offs => exact absurd hok (by simp [TodoOK])
 
 theorem inv_endRetx {payload : Bytes} {s : Sys} {t : List Item} (h : Inv payload s (.endRetx :: t)) :
     Inv payload { s with cl := { s.cl with retransmitting := false } } t :=
   ⟨h.phase, h.notDone, h.blk, h.seqLen, h.seqLt, h.blkLe, h.sseqLe, h.data, h.pos, h.size, h.srvSize, h.cb7,
-    h.todoOK, h.queue, h.nonempty⟩
+    h.todoOK, h.queue, h.nonempty, h.pend⟩
 
 /-- the write phase, if it returns normally, ends with every byte at the server and acknowledged -/
 theorem run_safe (E : Env) (hE : Plain E) (payload : Bytes) :
@@ -515,6 +540,7 @@ theorem run_safe (E : Env) (hE : Plain E) (payload : Bytes) :
           · subst hi
             exact run_done E payload f s1 _ hd ht hinv.todoOK.2.2.2 h
           · exact absurd h (run_doomed E f s1 _ hp)
+      | feed rem offs => exact absurd hinv.todoOK (by simp [TodoOK])
 
 
 theorem chunks7_props : ∀ (f : Nat) (bs : Bytes), bs.length ≤ f →
@@ -584,7 +610,7 @@ theorem init_inv (E : Env) (hE : Plain E) (payload : Bytes)
     have hs : s = _ := (Prod.mk.inj h).1.symm
     subst hs
     have hb := hE.blk 0
-    refine ⟨rfl, rfl, rfl, rfl, by simp; omega, by simp; omega, by simp, ?_, ?_, rfl, rfl, by simp, hck.2, rfl, ?_⟩
+    refine ⟨rfl, rfl, rfl, rfl, by simp; omega, by simp; omega, by simp, ?_, ?_, rfl, Or.inl rfl, by simp, hck.2, rfl, ?_, rfl⟩
     · simp [chunks, hck.1]
     · simp [chunks, hck.1]
     · simp only [chunks, hck.1]; intro h0; rw [h0] at h1; simp at h1
@@ -596,7 +622,8 @@ theorem any_replicate_zero (k : Nat) : (List.replicate k 0).any (fun x => decide
 
 /-- the server's answer to the end request once every segment is in -/
 theorem fin_end (blkOf : Nat → Nat) (s : Srv) (hp : s.phase = .fin) (l : Nat) (hl : 1 ≤ l ∧ l ≤ 7) (c1 c2 : Nat)
-    (payload : Bytes) (hbuf : s.buf = payload ++ List.replicate (7 - l) 0) (hsz : s.size = some payload.length) :
+    (payload : Bytes) (hbuf : s.buf = payload ++ List.replicate (7 - l) 0)
+    (hsz : s.size = some payload.length ∨ s.size = none) :
     Spec.BlockDown.step blkOf s [192 ||| 1 ||| ((7 - l) <<< 2), c1, c2, 0, 0, 0, 0, 0] =
       if s.crc = true ∧ crcHqx payload 0 ≠ c1 + 256 * c2 then
         ({ s with phase := .idle }, [Spec.abortFrame s.idx s.sub 0x05040004])
@@ -609,6 +636,7 @@ theorem fin_end (blkOf : Nat → Nat) (s : Srv) (hp : s.phase = .fin) (l : Nat) 
     rw [Nat.add_sub_cancel]; exact List.drop_left' rfl
   obtain ⟨h1, h2⟩ := hl
   have : l = 1 ∨ l = 2 ∨ l = 3 ∨ l = 4 ∨ l = 5 ∨ l = 6 ∨ l = 7 := by omega
+  rcases hsz with hsz | hsz <;>
   rcases this with rfl | rfl | rfl | rfl | rfl | rfl | rfl <;>
     simp [Spec.BlockDown.step, Spec.BlockDown.finStep, hp, hbuf, hsz, Spec.BlockDown.flagIf] at htake hdrop hz ⊢ <;>
     simp [htake, hdrop, hz]
@@ -623,9 +651,79 @@ theorem close_req (s : Sys) :
   unfold crcField
   cases s.cl.crcSupported <;> simp [leBytes, REQUEST_BLOCK_DOWNLOAD, END_BLOCK_TRANSFER]
 
+/-- once the last segment is out `close()` is the end request alone -/
+theorem close_done (E : Env) (s : Sys) (h : s.cl.done = true) : close E s = closeEnd E s := by
+  simp [close, h]
+
+/-- the same when nothing is kept back -/
+theorem close_nokeep (E : Env) (s : Sys) (h : s.cl.done = true ∨ s.cl.pend = []) : close E s = closeEnd E s := by
+  rcases h with h | h <;> simp [close, h]
+
+theorem sendReq_cl (E : Env) (s : Sys) (f : Bytes) : (sendReq E s f).cl = s.cl := by
+  unfold sendReq
+  split
+  · rfl
+  · split <;> rfl
+
+theorem readResponse_cl (E : Env) (s : Sys) : (readResponse E s).1.cl = s.cl := by
+  unfold readResponse
+  split
+  · rfl
+  · split
+    · split <;> rfl
+    · rfl
+
+/-- after `send(…, end=True)` the stream is done, whatever the acknowledge says -/
+theorem send_last_done (E : Env) (s : Sys) (b : Bytes) (s1 : Sys) (items : List Item)
+    (h : send E s b true = (s1, .cont items)) : s1.cl.done = true := by
+  unfold send at h
+  simp only at h
+  split at h
+  · unfold blockAck at h
+    have hr := readResponse_cl E { sendReq E s (segFrame (s.cl.seqno + 1) true b) with
+      cl := afterSend (sendReq E s (segFrame (s.cl.seqno + 1) true b)).cl b true }
+    generalize readResponse E _ = rr at h hr
+    obtain ⟨s3, r⟩ := rr
+    have hd3 : s3.cl.done = true := by
+      simp only at hr
+      rw [hr]; simp [afterSend]
+    cases r with
+    | resp f =>
+      simp only at h
+      unfold ackResponse at h
+      split at h
+      · simp at h
+      · split at h
+        · simp at h
+        · split at h
+          · rw [← (Prod.mk.inj h).1]; exact hd3
+          · rw [← (Prod.mk.inj h).1]; exact hd3
+    | timeout => simp at h
+    | aborted c => simp at h
+  · rw [← (Prod.mk.inj h).1]; simp [afterSend]
+
+/-- a stream that is done refuses every further `write`: what is left on the stack is worked off
+    in as many steps as it has entries -/
+theorem run_done_nofuel (E : Env) : ∀ (l : List Item) (s : Sys), s.cl.done = true →
+    (run E (l.length + 1) s l).2 ≠ .fuel := by
+  intro l
+  induction l with
+  | nil => intro s _; simp [run]
+  | cons x l ih =>
+    intro s hd
+    cases x with
+    | endRetx => simp only [List.length_cons, run]; exact ih _ hd
+    | write b r => simp [run, writeStep, hd]
+    | feed rem offs =>
+      simp only [List.length_cons, run]
+      split
+      · exact ih _ hd
+      · simp [writeStep, hd]
+
 theorem close_lost (E : Env) (hE : Plain E) (payload : Bytes) (s : Sys) (hd : DoneInv payload s) (hl : E.lost s.nreq = true) :
     (close E s).2 = .err := by
-  unfold close
+  rw [close_done E s hd.done]
+  unfold closeEnd
   simp only [requestResponse, MAX_RETRIES, rrLoop]
   rw [sendReq_lost E _ _ (by simpa using hl)]
   simp [readResponse, Spec.BlockDown.timeout, hd.phase, hE.tmo' hl, fail]
@@ -634,7 +732,8 @@ theorem close_deliv (E : Env) (hE : Plain E) (payload : Bytes) (s : Sys) (hd : D
     if s.srv.crc = true ∧ crcHqx payload 0 ≠ (crcField s.cl).1 + 256 * (crcField s.cl).2 then
       (close E s).2 = .err
     else (close E s).2 = .ok ∧ (close E s).1.srv.committed = some payload := by
-  unfold close
+  rw [close_done E s hd.done]
+  unfold closeEnd
   simp only [requestResponse, MAX_RETRIES, rrLoop]
   rw [sendReq_deliv E _ _ (by simpa using hl) hE.dist, close_req,
     fin_end E.blkOf s.srv hd.phase s.cl.lastBytesSent hd.last _ _ payload hd.buf hd.srvSize]
@@ -730,7 +829,7 @@ theorem send_sync_last (E : Env) (hE : Plain E) (payload : Bytes) (s : Sys)
   rw [if_pos (by simp), blockAck_queued _ _ (s.srv.sseq + 1) (E.blkOf s.srv.k) (by rfl), ackResponse_ack]
   have he : s.srv.sseq + 1 = s.cl.seqno + 1 := by omega
   simp only [ne_eq, he, not_true_eq_false, if_false]
-  refine ⟨_, rfl, ⟨rfl, ?_, ⟨tk1, tk2⟩, h.srvSize, rfl⟩, ⟨rfl, rfl, rfl, rfl, rfl, ?_⟩, rfl⟩
+  refine ⟨_, rfl, ⟨rfl, ?_, ⟨tk1, tk2⟩, h.srvSize, rfl, by simp⟩, ⟨rfl, rfl, rfl, rfl, rfl, ?_⟩, rfl⟩
   · have hdata := h.data
     have h0 : List.drop s.srv.sseq s.cl.currentBlock = [] := List.drop_eq_nil_of_le (by omega)
     simp only [itemsData, ht, h0, List.flatten_nil, List.append_nil] at hdata
@@ -746,7 +845,7 @@ theorem writeStep_eq (E : Env) (payload : Bytes) (s : Sys) (b : Bytes) (r : Bool
   have hpos := h.pos
   have htake : b.take 7 = b := List.take_of_length_le tk2
   simp only [itemsData, List.length_append] at hpos
-  unfold writeStep
+  rw [writeStep_nopend E s b r h.pend]
   simp only [h.notDone, Bool.false_eq_true, if_false, htake, h.size, Option.isSome_some, Option.getD_some, true_and]
   by_cases ht : itemsData t = []
   · rw [if_pos (by simp [ht] at hpos; omega), if_pos ht]
@@ -893,7 +992,8 @@ theorem close_ok (E : Env) (hE : Plain E) (payload : Bytes) (s : Sys) (hd : Done
     apply h2
     have hs := hcrc h1
     simp only [crcField, hs, if_true, hval hs]; omega
-  unfold close
+  rw [close_done E s hd.done]
+  unfold closeEnd
   simp only [requestResponse, MAX_RETRIES, rrLoop]
   rw [sendReq_deliv E _ _ (by simpa using hl) hE.dist, close_req,
     fin_end E.blkOf s.srv hd.phase s.cl.lastBytesSent hd.last _ _ payload hd.buf hd.srvSize, if_neg hno]
